@@ -11,7 +11,7 @@
   `process_signals()`) removed `s` from `q` for dispatch, `.putBack q s` that the partial
   `process_signals()` looked at `s` and re-queued it.
 -/
-import Simpleline.Lemmas.LoopLevels
+import Simpleline.Lemmas.LoopProps
 
 namespace Simpleline
 
@@ -59,14 +59,8 @@ theorem C01_fifo_within_priority (q : EQueue) (h : q.Sorted) (i j : Nat) (hij : 
 /-- In every reachable configuration every queue object (every level of every nesting depth, also
 closed ones) is well-formed. -/
 theorem C01_queues_sorted (P : Prog) (c0 c : Cfg) (h0 : Started c0) (hr : Reach P c0 c) :
-    ∀ q ∈ c.L.queues, q.Sorted := by
-  intro q hq
-  obtain ⟨i, hi, rfl⟩ := List.mem_iff_getElem.1 hq
-  have := (WF.reach h0 hr).sorted i
-  have heq : c.view.queue i = c.L.queues[i] := by
-    show c.L.queues.getD i {} = _
-    rw [List.getD_eq_getElem?_getD, List.getElem?_eq_getElem hi]; rfl
-  rwa [heq] at this
+    ∀ q ∈ c.L.queues, q.Sorted :=
+  queues_sorted h0 hr
 
 /-! ### 3. a signal taken for dispatch is the head of the active queue -/
 
@@ -83,53 +77,16 @@ theorem C01_take_is_head (P : Prog) (c0 c c' : Cfg) (h0 : Started c0) (hr : Reac
       q = cm.L.active ∧
       ∃ e es, (cm.queue q).entries = e :: es ∧ e.2.2 = s ∧ (∀ e' ∈ es, entryLt e e') ∧
         (c'.queue q).entries = es ∧ (∀ q', q' ≠ q → c'.queue q' = cm.queue q') ∧
-        c'.tr = .take q s :: cm.tr := by
-  obtain ⟨f⟩ := eff_take (trans_eff ht) hm
-  have wf : WF f.vm := (WF.reach h0 hr).plain f.plain
-  have hq := takeV_queue f.takeV
-  have hact := f.active
-  have main : ∀ cm : Cfg, f.vm = cm.view →
-      q = cm.L.active ∧
-      ∃ e es, (cm.queue q).entries = e :: es ∧ e.2.2 = s ∧ (∀ e' ∈ es, entryLt e e') ∧
-        (c'.queue q).entries = es ∧ (∀ q', q' ≠ q → c'.queue q' = cm.queue q') ∧
-        c'.tr = .take q s :: cm.tr := by
-    intro cm hcm
-    refine ⟨by rw [hact, hcm]; rfl, f.e, f.es, by rw [← f.entries, hcm]; rfl, f.sig,
-      sorted_head_min (wf.sorted q) f.entries, ?_, ?_, ?_⟩
-    · show (c'.view.queue q).entries = _
-      rw [hq q, if_pos hact.symm]
-      show (f.vm.queue q).entries.tail = _
-      rw [f.entries]; rfl
-    · intro q' hne
-      show c'.view.queue q' = _
-      rw [hq q', if_neg (by rw [← hact]; exact fun h => hne h.symm), hcm]; rfl
-    · have : c'.view.tr = _ := congrArg QView.tr f.after
-      rw [view_tr] at this
-      rw [this, hcm]; rfl
-  rcases f.first with h1 | ⟨h1, d, hd, h2⟩
-  · exact ⟨c, .inl rfl, main c h1⟩
-  · exact ⟨d, .inr ⟨h1, hd⟩, main d h2⟩
+        c'.tr = .take q s :: cm.tr :=
+  take_is_head h0 hr ht hm
 
 /-- In particular: no signal is taken for dispatch while a more urgent one is pending in the same
 queue — every signal still pending in `q` after the take has a priority value at least that of the
 taken one. -/
 theorem C01_no_more_urgent_pending (P : Prog) (c0 c c' : Cfg) (h0 : Started c0) (hr : Reach P c0 c)
     (ht : Trans P c c') (q : Nat) (s : Sig) (hm : Tr.take q s ∈ newTr c c') :
-    ∀ s' ∈ (c'.queue q).sigs, s.prio ≤ s'.prio := by
-  obtain ⟨cm, hcm, _, e, es, he, hs, hmin, hes, _, _⟩ := C01_take_is_head P c0 c c' h0 hr ht q s hm
-  have hr' : Reach P c0 cm := by
-    rcases hcm with rfl | ⟨_, hd⟩
-    · exact hr
-    · exact hr.deliver hd
-  have srt := (WF.reach h0 hr').sorted q
-  intro s' hs'
-  unfold EQueue.sigs at hs'
-  rw [hes] at hs'
-  obtain ⟨e', he', rfl⟩ := List.mem_map.1 hs'
-  have h1 := entryLt_prio_le (hmin e' he')
-  have h2 : e.1 = e.2.2.prio := srt.prio e (by show e ∈ (cm.queue q).entries; rw [he]; simp)
-  have h3 : e'.1 = e'.2.2.prio := srt.prio e' (by show e' ∈ (cm.queue q).entries; rw [he]; simp [he'])
-  rw [← hs]; omega
+    ∀ s' ∈ (c'.queue q).sigs, s.prio ≤ s'.prio :=
+  no_more_urgent_pending h0 hr ht hm
 
 /-! ### 4. frame: nothing else is ever removed or reordered -/
 
